@@ -80,6 +80,17 @@ func c10atoms(th bool) []cmAtom {
 
 var c10tables = map[bool][]cmAtom{false: c10atoms(false), true: c10atoms(true)}
 
+// c10otherCalls is a valuer that knows functions, but not now().
+type c10otherCalls struct{}
+
+func (c10otherCalls) Value(key string) (interface{}, bool) { return nil, false }
+func (c10otherCalls) Call(name string, args []interface{}) (interface{}, bool) {
+	if name == "pi" {
+		return 3.14, true
+	}
+	return nil, false
+}
+
 func c10eval(c c10Case) []ev.Finding {
 	if c.Long > 0 {
 		return c10long(c)
@@ -117,6 +128,20 @@ func c10eval(c c10Case) []ev.Finding {
 	}
 	if err2 != nil {
 		return []ev.Finding{{Sig: "second-split:error", Witness: wit, Detail: "the first split succeeded, the second one on the same tree failed: " + err2.Error(), Case: c, Rank: rank}}
+	}
+	// the valuer may be a composition: a valuer that knows other functions (and not now()) in front of the clock, and
+	// the clock inside a nested composition, change nothing
+	for vi, v := range []influxql.Valuer{influxql.MultiValuer(c10otherCalls{}, valuer), influxql.MultiValuer(influxql.MultiValuer(influxql.MapValuer{}, c10otherCalls{}), influxql.MultiValuer(valuer))} {
+		var r3 influxql.Expr
+		var t3 influxql.TimeRange
+		var e3 error
+		if p, st := try(func() { r3, t3, e3 = influxql.ConditionExpr(influxql.CloneExpr(expr), v) }); p != nil {
+			return []ev.Finding{{Sig: "panic:ConditionExpr", Witness: wit, Detail: "composite valuer: " + fmt.Sprint(p) + st, Case: c, Rank: rank}}
+		}
+		if e3 != nil || t3.MinTimeNano() != tr.MinTimeNano() || t3.MaxTimeNano() != tr.MaxTimeNano() || fmt.Sprint(r3) != fmt.Sprint(resid) {
+			return []ev.Finding{{Sig: "split-depends-on-how-the-valuer-is-composed", Witness: wit,
+				Detail: fmt.Sprintf("with the clock alone: range [%d,%d], residual %v; with composition %d: range [%d,%d], residual %v, error %v", tr.MinTimeNano(), tr.MaxTimeNano(), resid, vi, t3.MinTimeNano(), t3.MaxTimeNano(), r3, e3), Case: c, Rank: rank}}
+		}
 	}
 	lo, hi := tr.MinTimeNano(), tr.MaxTimeNano()
 	// the same range through Min/Max with IsZero = open
